@@ -685,25 +685,36 @@ func runMesh(m *mesh, keys []keyInfo) {
 	}
 
 	quiet := func() {
-		waitFor(8*time.Second, 2*time.Millisecond, func() bool {
+		// nothing pending anywhere, continuously for 120 ms: between a dequeue and the write (or the
+		// lock) a goroutine of the implementation holds a packet that no counter sees; on a loaded
+		// machine it may stay descheduled for tens of milliseconds
+		var since time.Time
+		waitFor(10*time.Second, 4*time.Millisecond, func() bool {
 			if dead() {
 				return true
 			}
-			if busy.Load() != 0 {
-				return false // a packet is being written (possibly to a reader that is slow or gated)
-			}
-			for _, fs := range nodes {
-				if sn := safeSnap(fs); sn == nil || sn.PublishQueue != 0 {
-					return false
-				}
-				if fs.VerifQueued() != 0 {
-					return false // packets waiting behind a blocked writer
+			idle := busy.Load() == 0
+			if idle {
+				for _, fs := range nodes {
+					if sn := safeSnap(fs); sn == nil || sn.PublishQueue != 0 || fs.VerifQueued() != 0 {
+						idle = false
+						break
+					}
 				}
 			}
-			mu.Lock()
-			q := time.Since(lastEvent) > 40*time.Millisecond
-			mu.Unlock()
-			return q
+			if idle {
+				mu.Lock()
+				idle = time.Since(lastEvent) > 120*time.Millisecond
+				mu.Unlock()
+			}
+			if !idle {
+				since = time.Time{}
+				return false
+			}
+			if since.IsZero() {
+				since = time.Now()
+			}
+			return time.Since(since) > 120*time.Millisecond
 		})
 	}
 	for _, ev := range m.evs {
